@@ -8,7 +8,9 @@ from .. import core
 from ..core import SKIP
 
 ID = "C09"
-RULE = ("(v6: + genomes past 2^31 / 2^32 / 2^33 bases (sparse observations), narrow value dtypes (uint8, int8, int16, float16, float32) "
+RULE = ("(v7: + two genomes over the same chromosomes in the same / another order (equal-length chromosomes swapped): binary ops "
+        "and boolean indexing across them, tables with a chromosome column encoded by the other genome - refused or right by "
+        "chromosome name; v6: + genomes past 2^31 / 2^32 / 2^33 bases (sparse observations), narrow value dtypes (uint8, int8, int16, float16, float32) "
         "with python and NumPy scalar operands on either side, dtype and values compared with dense NumPy; v5: + arrays must not follow later in-place edits of their input tables nor of the arrays/records they handed out "
         "(gap-free genome-wide bedGraphs included), two genomes alive at once, query sequences on one GenomicIntervals object "
         "(merged/sorted/clip/... then pileup and mask again), every input table byte-compared after the call; v4: + constructor->to_array for float64/32/16,int64,bool, to_bedgraph, t[intervals]/t[locations], from_dict/from_stream, "
@@ -296,6 +298,30 @@ def cases(tier, rng):
             if o[0] in CMP and o[2] != "py":
                 o[1] = "r"
         yield {"op": "narrow", "sizes": sizes, "recs": recs, "dtype": dt, "ops": ops}
+    # 2f. two genomes over the same chromosomes, possibly in another order (equal lengths among the swapped ones included):
+    #     arrays of one combined with arrays of the other, and tables whose chromosome column was encoded by the other
+    CN = ["chr2", "chr10", "chrX", "chr1", "chrM"]
+    for _ in range(500 if big else 100):
+        n = rng.choice([2, 3, 4])
+        names = rng.sample(CN, n)
+        base = rng.choice([5, 8])
+        szs = [base if rng.random() < 0.7 else rng.choice([3, 8, 9]) for _ in names]
+        how = rng.choice(["same", "sorted", "perm", "perm", "reversed"])
+        if how == "same":
+            order = list(range(n))
+        elif how == "sorted":
+            order = sorted(range(n), key=lambda i: names[i])
+        elif how == "reversed":
+            order = list(range(n))[::-1]
+        else:
+            order = rng.sample(range(n), n)
+        def recs_on():
+            out = []
+            for i in range(n):
+                pts = sorted(rng.sample(range(szs[i] + 1), 2 * rng.randrange(0, 3)))
+                out += [[i, a, b, rng.choice([1, 2, 5, 7])] for a, b in zip(pts[0::2], pts[1::2])]
+            return out
+        yield {"op": "cross", "names": names, "sizes": szs, "order": order, "how": how, "a": recs_on(), "b": recs_on()}
     # 2c. queries on one GenomicIntervals object in a row (nested / duplicated intervals included)
     for _ in range(600 if big else 120):
         sizes = [rng.choice([3, 6, 12]) for _ in range(rng.choice([1, 2, 3]))]
@@ -394,6 +420,8 @@ def nontrivial(c):
         return len(c["recs"]) >= 1
     if op == "big":
         return sum(c["sizes"]) >= 2 ** 32 and len(c["recs"]) >= 1
+    if op == "cross":
+        return c["order"] != list(range(len(c["names"]))) and bool(c["a"]) and bool(c["b"])
     if op == "narrow":
         return len(c["recs"]) >= 1
     if op == "gi_seq":
@@ -577,6 +605,52 @@ def _arr_obs(d, names):
     return out
 
 
+def _impl_cross(c):
+    """genome A lists the chromosomes as given, genome B in `order`; results are reported per chromosome NAME; a refusal
+    (any exception) is reported as such"""
+    m = _mods()
+    names, szs, order = c["names"], c["sizes"], c["order"]
+    dA = dict(zip(names, szs))
+    gA = m["bnp"].Genome.from_dict(dA)
+    if c["how"] == "sorted":
+        gB = m["bnp"].Genome.from_dict(dict(dA), sort_names=True)
+    else:
+        gB = m["bnp"].Genome.from_dict({names[i]: szs[i] for i in order})
+
+    def table(recs, in_order):
+        rs = sorted(recs, key=lambda r: (in_order.index(r[0]), r[1]))
+        return m["BedGraph"]([names[r[0]] for r in rs], np.array([r[1] for r in rs], dtype=int),
+                             np.array([r[2] for r in rs], dtype=int), np.array([r[3] for r in rs], dtype=int))
+    a = gA.get_track(table(c["a"], list(range(len(names)))))
+    b = gB.get_track(table(c["b"], order))
+
+    def by_name(f):
+        try:
+            r = f()
+            d = r.to_dict() if hasattr(r, "to_dict") else r
+            return {n: [int(v) for v in np.asarray(d[n]).tolist()] for n in names}
+        except Exception as e:
+            return {"err": type(e).__name__}
+    out = {"a": by_name(lambda: a), "b": by_name(lambda: b),
+           "add": by_name(lambda: a + b), "mul": by_name(lambda: a * b), "sub": by_name(lambda: b - a),
+           "and": by_name(lambda: (a > 0) & (b > 0)), "lt": by_name(lambda: a < b)}
+    try:
+        out["index"] = [int(v) for v in np.asarray(a[b > 0]).tolist()]
+    except Exception as e:
+        out["index"] = {"err": type(e).__name__}
+    # a table whose chromosome column was encoded by genome A, handed to genome B (and back to A)
+    rs = sorted(c["a"], key=lambda r: (r[0], r[1]))
+    iv = gA.get_intervals(m["Interval"]([names[r[0]] for r in rs], np.array([r[1] for r in rs], dtype=int),
+                                        np.array([r[2] for r in rs], dtype=int))).get_data() if rs else None
+    if iv is not None:
+        vals = np.array([r[3] for r in rs], dtype=int)
+        for lab, g in (("enc_track_B", gB), ("enc_track_A", gA)):
+            out[lab] = by_name(lambda: g.get_track(m["BedGraph"](iv.chromosome, iv.start, iv.stop, vals)))
+        for lab, g in (("enc_mask_B", gB), ("enc_mask_A", gA)):
+            out[lab] = by_name(lambda: g.get_intervals(m["Interval"](iv.chromosome, iv.start, iv.stop)).get_mask())
+    return out
+
+
 def _impl_alias(c):
     """build an array, look at it, let the caller edit the table it was built from (in place), look again; then
     scribble over the arrays / records the array handed out and look a third time. A second genome with other sizes
@@ -680,6 +754,8 @@ def _impl_raw(c):
     try:
         if op == "alias":
             return _impl_alias(c)
+        if op == "cross":
+            return _impl_cross(c)
         if op == "big":
             sizes = c["sizes"]
             names = ["chr%d" % (i + 1) for i in range(len(sizes))]
@@ -875,6 +951,24 @@ def oracle(c):
         if any(not _ok_bedgraph(rs, sz) for rs, sz in zip(per, sizes)) or [r[0] for r in c["recs"]] != sorted(r[0] for r in c["recs"]):
             return SKIP
         return {"dict": [_out(c["kind"], _dense(rs, c["kind"], sz)) for rs, sz in zip(per, sizes)]}
+    if op == "cross":
+        names, szs = c["names"], c["sizes"]
+        da, db = {}, {}
+        for n, i in zip(names, range(len(names))):
+            for recs, d in ((c["a"], da), (c["b"], db)):
+                arr = np.zeros(szs[i], dtype=np.int64)
+                for r in recs:
+                    if r[0] == i:
+                        arr[r[1]:r[2]] = r[3]
+                d[n] = arr
+        L = lambda f: {n: [int(v) for v in f(da[n], db[n]).tolist()] for n in names}
+        exp = {"a": L(lambda x, y: x), "b": L(lambda x, y: y), "add": L(lambda x, y: x + y), "mul": L(lambda x, y: x * y),
+               "sub": L(lambda x, y: y - x), "and": L(lambda x, y: (x > 0) & (y > 0)), "lt": L(lambda x, y: x < y),
+               "index": [int(v) for n in names for v in da[n][db[n] > 0].tolist()]}
+        if c["a"]:
+            exp["enc_track_B"] = exp["enc_track_A"] = exp["a"]
+            exp["enc_mask_B"] = exp["enc_mask_A"] = L(lambda x, y: x > 0)
+        return exp
     if op == "big":
         sizes = c["sizes"]
         per = _split(sizes, c["recs"])
@@ -1049,6 +1143,17 @@ def agree(c, got, exp):
         return core.canon(got) == core.canon(exp)
     if op == "narrow":
         return core.canon(got) == core.canon(exp)
+    if op == "cross":
+        same = c["order"] == list(range(len(c["names"])))
+        for k, want in exp.items():
+            g = got.get(k)
+            refused = isinstance(g, dict) and "err" in g
+            if k in ("a", "b") or (same and not k.startswith("enc_track")) or k == "enc_mask_A":
+                if refused or g != want:          # must work: one genome, or two genomes in the same order
+                    return False
+            elif not refused and g != want:       # other order / foreign encoding: refuse, or be right by chromosome NAME
+                return False
+        return True
     if op == "big":
         for k in ("sum", "chrom_sums", "chrom_len", "rows"):
             if got[k] != exp[k]:
@@ -1116,6 +1221,11 @@ def finding_key(c, got, exp):
     op = c["op"]
     if isinstance(got, dict) and "mutated_arguments" in got:
         return f"{op}:modifies-its-argument-{'-'.join(got['mutated_arguments'])}"
+    if op == "cross" and isinstance(got, dict) and "add" in got:
+        bad = [k for k, want in exp.items() if not (isinstance(got.get(k), dict) and "err" in got[k]) and got.get(k) != want]
+        if bad:
+            return "cross:values-of-one-chromosome-on-another-" + ("encoded-column" if bad[0].startswith("enc") else "binary-op")
+        return "cross:refuses-a-compatible-combination"
     if op == "alias" and isinstance(got, dict) and "first" in got:
         if got["first"]["dict"] == exp["obs"]["dict"] and got["after_input_edit"]["dict"] != exp["obs"]["dict"]:
             return "alias:array-follows-later-edits-of-its-input"
